@@ -30,3 +30,14 @@ Theorem C15_point_old_boundary_refuted :
     forall r, nth_error (point_topology_old true 0 false stored) (Z.to_nat k) = Some r -> ~ In (Some m) r.
 Proof. exact point_old_boundary_refuted. Qed.
 Print Assumptions C15_point_old_boundary_refuted.
+
+(* F15e: _ugrid_create_cell_connectivities popped "start_index" from the reader's own
+   attribute dictionary of the connectivity variable, so a second mesh topology variable
+   that names the same face_face_connectivity variable was read with start index 0: in a
+   one-based mesh of two faces, face 0 is then given the neighbour "2" and face 1 itself *)
+Theorem C15_second_mesh_start_index_old_refuted :
+  exists stored,
+    cell_conn 1 false stored = [[Some 0; Some 1]; [Some 1; Some 0]] /\
+    cell_conn 0 false stored = [[Some 0; Some 2]; [Some 1; Some 1]].
+Proof. exists [[Some 2]; [Some 1]]. split; vm_compute; reflexivity. Qed.
+Print Assumptions C15_second_mesh_start_index_old_refuted.
